@@ -1039,6 +1039,38 @@ class Rewriter:
             a["stmts"].pop()
             a["term"] = {"k": "goto", "to": tgt, "syn": "folded"}
 
+    def merge_linear_chains(self):
+        """`A: ..; goto B` where B has no other predecessor: B's statements and terminator move into A (B becomes unreachable).
+        Brings a discriminant test that rewriting left two hops behind a merge (`x = move tmp` / closure construction / switch)
+        into the merge block, where thread_known_variants can see it."""
+        from .cfg import term_succs
+        changed = True
+        rounds = 0
+        while changed and rounds < 50:
+            changed = False
+            rounds += 1
+            preds = {}
+            for i, b in enumerate(self.blocks):
+                for _l, t_ in term_succs(b["term"]):
+                    preds.setdefault(t_, []).append(i)
+            for ai, a in enumerate(self.blocks):
+                if a["term"]["k"] != "goto" or a.get("cleanup"):
+                    continue
+                bi = a["term"]["to"]
+                if bi == ai or bi == 0 or preds.get(bi) != [ai] or self.blocks[bi].get("cleanup"):
+                    continue
+                b = self.blocks[bi]
+                if b["term"]["k"] == "goto" and b["term"]["to"] == bi:
+                    continue
+                a["stmts"] = a["stmts"] + b["stmts"]
+                a["term"] = b["term"]
+                if b["term"]["k"] in ("call", "switch", "assert", "drop"):
+                    a["line"] = b["line"]
+                b["stmts"] = []
+                b["term"] = {"k": "unreachable"}
+                changed = True
+                break
+
     def thread_known_variants(self):
         """jump threading: a block that ends `X = <enum aggregate of variant V>; goto T` where T only reads the discriminant of
         X and switches on it jumps straight to V's arm (T is pure, so skipping it changes nothing).  Restores the edge guards
@@ -1063,12 +1095,33 @@ class Rewriter:
                 if len(dread) != 1:
                     continue
                 pure_only = len(real) == 1
-                if not pure_only and not (p.get("syn") and len(T["stmts"]) <= 16):
+                if not pure_only and len(T["stmts"]) > 16:
                     continue
                 xp = dread[0]["rv"]["discr"]
                 if xp["proj"]:
                     continue
                 X = xp["l"]
+                # `X = move Y` inside T in front of the test: the variant is Y's
+                moved = False
+                for _hop in range(3):
+                    src_ = None
+                    for s_ in T["stmts"]:
+                        if s_ is dread[0]:
+                            break
+                        if s_["k"] == "assign" and s_["place"]["l"] == X and not s_["place"]["proj"]:
+                            u_ = s_["rv"].get("use")
+                            pl_ = (u_.get("move") or u_.get("copy")) if isinstance(u_, dict) else None
+                            src_ = pl_["l"] if pl_ and not pl_["proj"] else "?"
+                    if src_ is None:
+                        break
+                    if src_ == "?":
+                        X = None
+                        break
+                    X, moved = src_, True
+                if X is None:
+                    continue
+                if moved and len(T["stmts"]) > 16:
+                    continue
                 val = None
                 for s_ in reversed(p["stmts"]):
                     if s_["k"] == "setdiscr" and s_["place"]["l"] == X:
@@ -1119,6 +1172,7 @@ class Rewriter:
                     continue
         if self.changed:
             self.fold_const_bool_arms()
+            self.merge_linear_chains()
             self.thread_known_variants()
         return self.changed
 
